@@ -181,7 +181,7 @@ PROPS = {
             ("sass::functions::list set_nth closure", "sass/functions/list.rs", r"def!\(f, set_nth\("),
         ],
         "bounds": {"quick": "ALL i64 n, every list length <= 2^32 (len symbolic)"},
-        "outside": "append/join/zip/index/separator (operate on Vec<css::Value>), maps and arglists as lists, the nth closure's dispatch on list/map/scalar",
+        "outside": "list.index and zip (loops over Vec<css::Value> with opaque == calls), length, maps and arglists as lists, the nth closure's dispatch on list/map/scalar; the element vectors themselves are opaque (append/join are decided on separator/bracket selection and on which vector is pushed/appended to which)",
         "stubs": ["check::unitless_int returns Ok(arbitrary i64) or Err", "get_list / ResolvedArgs::get* are opaque events", "Vec::index_mut is an event"],
         "assumptions": ["rustc nightly MIR text = the code that is compiled", "mirsym's MIR subset semantics (/verif/mirsym/sym.py)", "z3 5.1 and cvc5 1.0.3 (every query on both)"],
     },
